@@ -104,7 +104,9 @@ func scanLong(comment bool) stateFn {
 				break OpeningLoop
 			default:
 				if comment {
-					l.ignore()
+					// Not a long bracket after all, so this is a short comment.
+					// The rune just read may be the line end that finishes it.
+					l.backup()
 					return scanShortComment
 				}
 				return l.errorf(token.INVALID, "expected opening long bracket")
